@@ -69,7 +69,7 @@ func loadBounded(prop string) []boundedSpec {
 }
 
 var reCases = regexp.MustCompile(`^BOUNDED-CASES n=(\d+) distinct=(\d+) bound=(.*)$`)
-var reFail = regexp.MustCompile(`^BOUNDED-FAIL id=(\S+) :: (.*)$`)
+var reFail = regexp.MustCompile(`^BOUNDED-FAIL id=(.+?) :: (.*)$`)
 
 func runBounded(s boundedSpec, tier string, seed int64) boundedResult {
 	r := boundedResult{Spec: s}
@@ -100,7 +100,12 @@ func runBounded(s boundedSpec, tier string, seed int64) boundedResult {
 			r.Bound = m[3]
 		} else if m := reFail.FindStringSubmatch(ln); m != nil {
 			if len(r.Fails) < 40 {
-				r.Fails = append(r.Fails, boundedFail{m[1], m[2]})
+				r.Fails = append(r.Fails, boundedFail{strings.ReplaceAll(m[1], " ", "_"), m[2]})
+			}
+		} else if strings.HasPrefix(ln, "BOUNDED-FAIL") {
+			// a failure line the harness printed in an unexpected shape is still a failure
+			if len(r.Fails) < 40 {
+				r.Fails = append(r.Fails, boundedFail{"unparsed", ln})
 			}
 		} else if strings.HasPrefix(ln, "BOUNDED-SAMPLE ") && len(r.Samples) < 4 {
 			r.Samples = append(r.Samples, ln[len("BOUNDED-SAMPLE "):])
